@@ -164,7 +164,14 @@ pub fn exec(m: &mut Machine, id: u64, op: &str, argv: &[Val], store: bool) -> St
             s.push_str("ok");
             for v in &vals {
                 s.push(' ');
+                NONCANON.with(|f| f.set(false));
+                let at = s.len();
                 show(v, &mut s);
+                if NONCANON.with(|f| f.get()) {
+                    // observation, not arithmetic: a returned field element is not equal (library `==`) to the
+                    // canonical element with the same integer value
+                    s.insert_str(at, "NC:");
+                }
             }
             if store {
                 if let Some(v) = vals.into_iter().next() {
